@@ -560,3 +560,103 @@ func (q *Q) OnlyIn(rule, key string, got map[string][]string, allowed []string, 
 	sort.Strings(ks)
 	q.r.OK(rule, key, pos, "only in {"+strings.Join(ks, ", ")+"}")
 }
+
+// StoreClasses: state-transition ownership.  Every post-publication store to the field
+// is classified "nil" (nil / zero / false constant) or "set" (anything else); `allowed`
+// maps a function to the classes it may store ("nil", "set", "nil,set").  A store by an
+// unlisted function, or of a class the function is not allowed, is a violation; a listed
+// (function, class) pair with no store is an anchor failure.
+func (q *Q) StoreClasses(rule, key, fieldKey string, allowed map[string]string) {
+	fi := q.p.E3().fields[fieldKey]
+	if fi == nil {
+		q.r.Bad(rule, key, "-", "ANCHOR-MISSING: field "+fieldKey+" not found")
+		return
+	}
+	seen := map[string]bool{}
+	var bad []string
+	for _, a := range fi.Accesses {
+		if !a.Write || a.PrePub {
+			continue
+		}
+		cls := "set"
+		switch x := a.In.(type) {
+		case *ssa.Store:
+			if c, ok := x.Val.(*ssa.Const); ok && (c.Value == nil || c.Value.ExactString() == "0" || c.Value.ExactString() == "false") {
+				cls = "nil"
+			}
+		}
+		fn := q.p.FuncName(a.Fn)
+		seen[fn+"/"+cls] = true
+		al, ok := allowed[fn]
+		if !ok || !strings.Contains(","+strings.ReplaceAll(al, "?", "")+",", ","+cls+",") {
+			bad = append(bad, fmt.Sprintf("%s stores a %s value at %s", fn, map[string]string{"nil": "cleared", "set": "live"}[cls], q.p.InstrPos(a.In)))
+		}
+	}
+	sort.Strings(bad)
+	if len(bad) > 0 {
+		q.r.Bad(rule, key, "-", "state field "+fieldKey+" is written outside its transition table: "+strings.Join(bad, "; "))
+		return
+	}
+	var missing []string
+	for fn, al := range allowed {
+		for _, c := range strings.Split(al, ",") {
+			if strings.HasSuffix(c, "?") {
+				continue
+			}
+			if !seen[fn+"/"+c] {
+				missing = append(missing, fn+"/"+c)
+			}
+		}
+	}
+	sort.Strings(missing)
+	if len(missing) > 0 {
+		q.r.Bad(rule, key, "-", "ANCHOR-MISSING: expected transition(s) of "+fieldKey+" not found: "+strings.Join(missing, "; "))
+		return
+	}
+	var ks []string
+	for k := range seen {
+		ks = append(ks, k)
+	}
+	sort.Strings(ks)
+	q.r.OK(rule, key, "-", fieldKey+" transitions: "+strings.Join(ks, ", "))
+}
+
+// ListRemoval: f removes one element from the slice `list` by the idiom
+// list = append(list[:i], list[i+1:]...) — the store shortens the slice — and does so
+// only for the i whose element equals the departing object (a guard atom comparing
+// list[i] with ==).  An in-place copy without truncation, or a removal on another
+// condition, leaves a stale (or drops a live) entry.
+func (q *Q) ListRemoval(rule, key string, f *F, list, lock, badmsg string) {
+	if !f.OK() {
+		return
+	}
+	st := f.Ev("store", list)
+	var hit Sel
+	for _, e := range st {
+		v := e.Args[0]
+		pre := "append(" + list + "[:"
+		if !strings.HasPrefix(v, pre) {
+			continue
+		}
+		rest := v[len(pre):]
+		k := strings.Index(rest, "],"+list+"[(")
+		if k < 0 {
+			continue
+		}
+		idx := rest[:k]
+		if rest[k:] != "],"+list+"[("+idx+" + 1):])" {
+			continue
+		}
+		elem := list + "[" + idx + "]"
+		okG := false
+		for _, a := range e.Guard {
+			if (strings.HasSuffix(a, " == "+elem) || strings.HasPrefix(a, elem+" == ")) && !strings.HasPrefix(a, "!") {
+				okG = true
+			}
+		}
+		if okG && (lock == "" || Sel{e}.AllHeld(lock)) {
+			hit = append(hit, e)
+		}
+	}
+	q.r.Check(len(hit) == 1 && len(st) == 1, rule, key, st.Pos(q.p), list+" = append("+list+"[:i], "+list+"[i+1:]...) for the i whose element is the departing one, under the lock", badmsg+": "+argsOf(st)+" "+guardsOf(st))
+}
